@@ -6,7 +6,7 @@ run(body, transfer, init) propagates a set of abstract states through a structur
   cond(expr, state, branch) -> state|None  optional refinement on branches (None = branch infeasible)
 Returns (exit_states, fall_states): states at `return` (or end of body) and at normal fallthrough.
 Throwing paths are dropped (they do not reach a normal exit)."""
-from astu import C, ctxt, gt_pair, eq_const, strip
+from astu import C, ctxt, gt_pair, eq_const, reach, reach_txt, ctext, strip
 
 EVENT_KINDS = ("Call", "OpCall", "Construct", "Assign", "Un", "New", "Delete")
 
